@@ -558,3 +558,35 @@ RECV_MUTANTS = {
         ('prefetch on the first hop after the split', f'{ZMQ}::ZMQReceiver.recv', 'if not self.low_latency and balanced != 1:', 'if not self.low_latency:', 'C07.no_prefetch_first_hop'),
     ),
 }
+
+
+# ------------------------------------------------------------------------------------------------ BOUNDED stand-in next to the deductive units
+def bounded_histories(prop, tier):
+    """BOUNDED (never counted as proved): the native history driver (replay_drivers/zmq_history.py: scripted families + seeded random publish / deliver / drop / close /
+    recv histories on the REAL ZMQReceiver over the fake sockets, every returned set checked against the statements) for a fixed list of receiver configurations.  It
+    is what still decides when a change adds state the receiver contract does not describe (the deductive unit then reports `contract no longer binds`).
+    -> dict for a module's extra_checks()"""
+    import logging
+    logging.disable(logging.CRITICAL)
+    from replay_drivers import zmq_history
+    n = 1500 if tier == 'quick' else 15000
+    configs = [(('all',), (0,), False), (('explicit',), (0,), False), (('star',), (0,), False), (('all', 'all'), (0, 0), False), (('explicit', 'all'), (0, 0), False),
+               (('all', 'explicit'), (0, 1), False), (('all', 'all'), (0, 1), False), (('all', 'all'), (0, 0), True), (('explicit', 'explicit'), (0, 0), True),
+               (('all', 'all', 'all'), (0, 0, 0), False)]
+    total, found = 0, None
+    try:
+        for modes, ephs, balance in configs:
+            r = zmq_history.search(modes, ephs, balance, n_random=n, seed=1)
+            total += n
+            if r.get('confirmed'):
+                found = dict(r, config=dict(modes=list(modes), ephemeral=list(ephs), balanced=balance))
+                break
+    finally:
+        logging.disable(logging.NOTSET)
+    out = {'bounded': [{'clause': 'every set the real ZMQReceiver.recv returns: single id, complete, strictly increasing, balanced sets from one source (native history driver)',
+                        'kind': 'BOUNDED native search (not a proof)', 'bound': f'{len(configs)} receiver configurations x (scripted families + {n} random histories of 4..14 events)',
+                        'cases': total, 'failures': 1 if found else 0}]}
+    if found:
+        out['failures'] = [{'obligation': f'{prop} (bounded): a publish / deliver / recv history on the real receiver violates the statement', 'unit': 0, 'shape': 'bounded', 'model': None,
+                            'extra': None, 'goal': '', 'path_condition': [], 'solver': 'bounded native history search', 'native': found}]
+    return out
